@@ -58,6 +58,34 @@ def gen_case(rng, tier):
         other = g.leaf(state[2], want_cols=rng.sample("abcd", rng.randint(1, 2)), allow_special=False)
         jopt = {"minmax": rng.sample("abcd", rng.randint(1, 2)), "partial": rng.random() < 0.7, "is_lhs": rng.random() < 0.3}
         state = (["join", state[0], other[0], None, jopt], state[1] | other[1], state[2])
+    if state[1] and rng.random() < 0.1:
+        # an operation whose expression uses a function that exists in one engine kind only
+        # (Engine.functions), alone or nested in / around portable functions.  Where it belongs to
+        # the other engine kind, construction has to refuse (EngineError); whatever construction
+        # accepts has to execute.
+        prog, cols, eng = state
+        kind = "sql" if eng.startswith("sql") else "it"
+        fn = rng.choice(["only_sql", "only_it"])
+        restr = ["sql"] if fn == "only_sql" else ["it"]
+        col = rng.choice(sorted(cols))
+        e = ["rfn", fn, [["ref", col]], restr]
+        r = rng.random()
+        if r < 0.3:
+            e = ["rfn", "add", [e, ["lit", 1]], ["sql", "it"]]  # inside a function that declares support everywhere
+        elif r < 0.5:
+            e = ["sub", ["ref", col], e]  # inside a function with default support
+        elif r < 0.6:
+            e = ["rfn", fn, [["add", ["ref", col], ["lit", 1]]], restr]
+        free = [x for x in "efg" if x not in cols]
+        what = rng.choice(["calc", "sel", "sort"] if free else ["sel", "sort"])
+        if what == "calc":
+            state = (["calc", prog, free[0], e, None], cols | {free[0]}, eng)
+        elif what == "sel":
+            state = (["sel", prog, ["cmp", rng.choice(["lt", "ge", "ne"]), e, ["lit", 1]], None], cols, eng)
+        else:
+            state = (["sort", prog, [[e, rng.random() < 0.5]], None], cols, eng)
+        for _ in range(rng.randint(0, 1)):
+            state = g.unary(state, rng.choice(["proj", "slice", "dedup"])) or state
     case = gen.case_from(g, state)
     case["engine"] = engine
     return case
